@@ -370,6 +370,8 @@ def infer_ptrlike(M, X):
     for b in X.blocks.values():
         for i in b:
             if i.op == 'bin':
+                if i.a[0] == 'sub' and all(v[0] == 'reg' and v[1] in pl for v in (i.a[1], i.a[2])):
+                    continue        # pointer difference
                 for v in (i.a[1], i.a[2]):
                     if v[0] == 'reg' and v[1] in pl:
                         raise Unsupported("arithmetic on pointer-like i64 " + i.raw.strip())
